@@ -41,6 +41,8 @@ var builderProps = struct {
 type builder struct {
 	parseDepth int
 	firstInput query
+	built      int // number of parse nodes processed so far
+	maxBuilt   int // bound on built, see build
 }
 
 // axisPredicate creates a predicate to predicating for this axis node.
@@ -682,6 +684,10 @@ func (b *builder) processNode(root node, flags flag, props *builderProp) (q quer
 		err = errors.New("the xpath expressions is too complex")
 		return
 	}
+	if b.built = b.built + 1; b.maxBuilt > 0 && b.built > b.maxBuilt {
+		err = errors.New("the xpath expressions is too complex")
+		return
+	}
 	*props = builderProps.None
 	switch root.Type() {
 	case nodeConstantOperand:
@@ -731,7 +737,15 @@ func build(expr string, namespaces map[string]string) (q query, err error) {
 		}
 	}()
 	root := parse(expr, namespaces)
-	b := &builder{}
+	// Every item of a sequence `p/(a, b)` has the parse node of p as its input and builds its own
+	// query for it, so k such steps in a row ask for 2^k queries. A parse tree without shared nodes
+	// has at most a few nodes per character of the expression: anything far beyond that is refused
+	// like an expression that is nested too deeply, instead of being built for hours.
+	maxBuilt := 16 * len(expr)
+	if maxBuilt < 1<<20 {
+		maxBuilt = 1 << 20
+	}
+	b := &builder{maxBuilt: maxBuilt}
 	props := builderProps.None
 	return b.processNode(root, flagsEnum.None, &props)
 }
